@@ -107,7 +107,11 @@ pub fn expr(e: &Value) -> String {
         ),
         "call" => {
             let f = e["f"].as_str().unwrap_or("?");
-            format!("{}({})", f, list(&e["args"]))
+            if e["args"].as_array().map_or(true, |a| a.is_empty()) {
+                f.to_string()
+            } else {
+                format!("{}({})", f, list(&e["args"]))
+            }
         }
         "fn" => format!("{}({})", e["id"].as_str().unwrap_or("?"), list(&e["args"])),
         _ => "?".into(),
